@@ -1,4 +1,4 @@
 From Coq Require Import Extraction ExtrOcamlBasic.
 From Shisui Require Import Base.Bytes Model.Slots.
 Extraction Language OCaml.
-Extraction "c16_model.ml" try_acquire offer offer_err out_events in_events calls effective acquired gossip_round sched_run start_offers all_finished seq_sched stall_scenario ostall_scenario out_phases recv_phases slot_covers erase_phases.
+Extraction "c16_model.ml" try_acquire offer offer_err out_events in_events calls effective acquired gossip_round sched_run start_offers all_finished seq_sched pops_run stall_scenario ostall_scenario out_phases recv_phases slot_covers erase_phases.
